@@ -291,14 +291,17 @@ static void groupLists() {
 static int bcd(int v) { return ((v / 10) << 4) | (v % 10); }
 static bool leap(int y) { return (y % 4 == 0 && y % 100 != 0) || y % 400 == 0; }
 static int mlen(int y, int m) { static const int L[] = {31, 28, 31, 30, 31, 30, 31, 31, 30, 31, 30, 31}; return m == 2 && leap(y) ? 29 : L[m - 1]; }
-static void groupDates() {
-  for (const char* k : {"BDA", "BDA:4", "BDA:3", "BDZ", "HDA", "HDA:4", "HDA:3"}) {
+static void groupDates(int part, int parts) {
+  int idx = 0;
+  for (const char* k : {"BDA", "HDA", "BDA:4", "HDA:4", "BDA:3", "HDA:3", "BDZ"}) {
+    if ((idx++ % parts) != part) continue;
     Def* d = makeDef(k, 0, 0, 0);
     string ks = k;
     bool isBcd = k[0] == 'B', four = d->nbytes == 4, zero = ks == "BDZ";
     bool dup = ks == "BDA:4" || ks == "HDA:4";
-    // quick: the whole century for BDA; every 6th day plus all month ends for the other types
-    bool fullCentury = g_thorough || ks == "BDA";
+    // every calendar day 2000..2099 in both tiers; the registered duplicates (BDA:4, HDA:4) in the quick tier:
+    // every 6th day plus every month start and all days 28..31
+    bool fullCentury = g_thorough || !dup;
     for (int f : fmts()) {
       if (f == 1 && (dup || !g_thorough) && ks != "HDA") continue;
       bool full = fullCentury && (f == 0 || g_thorough);
@@ -346,27 +349,39 @@ static void groupDates() {
       });
     }
   }
+}
+
+// day counts: DAY (every value) and DTM (every calendar day of its range, in both tiers) -----------------------------------
+static void groupDayCounts() {
   Def* day = makeDef("DAY", 0, 0, 0);
   for (int f : fmts()) {
-    if (g_thorough) family(*day, f, "all16", all16);
+    if (g_thorough || f == 0) family(*day, f, "all16", all16);       // every day count, independent of the tier
     else { g_step16 = 4; family(*day, f, "s16l", [&](const PatFn& fn) {
       for (int v = 0; v < 800; v++) fn(Bytes{(uint8_t)(v & 0xff), (uint8_t)(v >> 8)});
       sample16(fn); }); }
   }
   Def* dtm = makeDef("DTM", 0, 0, 0);
-  for (int f : fmts()) if (f == 0 || g_thorough) family(*dtm, f, g_thorough ? "dtm" : "dtmq", [&](const PatFn& fn) {
-    auto put = [&](uint32_t v) { fn(Bytes{(uint8_t)v, (uint8_t)(v >> 8), (uint8_t)(v >> 16), (uint8_t)(v >> 24)}); };
-    const uint32_t maxv = 0x02da4e1f;
-    for (uint32_t day0 = 0; day0 * 1440 <= maxv; day0++) {      // every day, a random minute; ends of day regularly
-      if (!g_thorough && day0 % 6 != 0 && day0 % 365 > 2 && day0 % 365 < 363) continue;
-      put(day0 * 1440 + g_rng->below(1440));
-      if (day0 % 7 == 0) { put(day0 * 1440); put(day0 * 1440 + 1439); }
-      if (g_thorough) { put(day0 * 1440 + g_rng->below(1440)); put(day0 * 1440 + g_rng->below(1440)); }
-    }
-    for (uint32_t m = 0; m < 1440; m++) put(g_rng->below(33237) * 1440 + m);   // every minute of a day
-    put(maxv); put(maxv + 1); put(0xffffffffu); put(0x7fffffffu); put(0x80000000u);
-    for (int i = 0; i < 2000; i++) put((uint32_t)g_rng->next());
-  });
+  for (int f : fmts()) {
+    bool full = f == 0 || g_thorough;     // JSON in the quick tier: every 6th day, all leap days and year ends
+    family(*dtm, f, full ? "dtm" : "dtmq", [&](const PatFn& fn) {
+      auto put = [&](uint32_t v) { fn(Bytes{(uint8_t)v, (uint8_t)(v >> 8), (uint8_t)(v >> 16), (uint8_t)(v >> 24)}); };
+      const uint32_t maxv = 0x02da4e1f;
+      int y = 2009, m = 1, dd = 1;
+      for (uint32_t day0 = 0; day0 * 1440 <= maxv; day0++) {      // every calendar day 01.01.2009 .. 31.12.2099
+        bool special = (m == 2 && dd >= 28) || dd == 1 || dd == mlen(y, m);
+        if (full || day0 % 6 == 0 || special) {
+          put(day0 * 1440);                                        // 00:00
+          put(day0 * 1440 + 1 + g_rng->below(1438));               // a random minute
+          if (g_thorough || special || day0 % 7 == 0) put(day0 * 1440 + 1439);   // 23:59
+          if (g_thorough) put(day0 * 1440 + g_rng->below(1440));
+        }
+        if (++dd > mlen(y, m)) { dd = 1; if (++m > 12) { m = 1; y++; } }
+      }
+      for (uint32_t mi = 0; mi < 1440; mi++) put(g_rng->below(33237) * 1440 + mi);   // every minute of a day
+      put(maxv); put(maxv + 1); put(0xffffffffu); put(0x7fffffffu); put(0x80000000u);
+      for (int i = 0; i < 2000; i++) put((uint32_t)g_rng->next());
+    });
+  }
 }
 
 // times ---------------------------------------------------------------------------------------------------------
@@ -539,7 +554,9 @@ int main(int argc, char** argv) {
   else if (group == "num34") groupNum34();
   else if (group == "bits") groupBits();
   else if (group == "lists") groupLists();
-  else if (group == "dates") groupDates();
+  else if (group == "dates") groupDates(0, 1);
+  else if (group.compare(0, 6, "dates.") == 0) { int p = 0, n = 1; sscanf(group.c_str() + 6, "%d/%d", &p, &n); groupDates(p, n); }
+  else if (group == "days") groupDayCounts();
   else if (group == "times") groupTimes();
   else if (group == "strings") groupStrings();
   else if (group == "tem") groupTem();
